@@ -71,7 +71,8 @@ impl InferShapes for Add {
     ) -> Result<Vec<SymTensor>, InferShapesError> {
         let add = |x: &SymExpr, y: &SymExpr| {
             Some(match (x, y) {
-                (SymExpr::Value(x), SymExpr::Value(y)) => SymExpr::Value(x + y),
+                // If the sum overflows, the value is unknown.
+                (SymExpr::Value(x), SymExpr::Value(y)) => SymExpr::Value(x.checked_add(*y)?),
                 _ => x.clone() + y.clone(),
             })
         };
@@ -92,7 +93,7 @@ impl InferShapes for Sub {
     ) -> Result<Vec<SymTensor>, InferShapesError> {
         let sub = |x: &SymExpr, y: &SymExpr| {
             Some(match (x, y) {
-                (SymExpr::Value(x), SymExpr::Value(y)) => SymExpr::Value(x - y),
+                (SymExpr::Value(x), SymExpr::Value(y)) => SymExpr::Value(x.checked_sub(*y)?),
                 _ => x.clone() - y.clone(),
             })
         };
@@ -113,7 +114,14 @@ impl InferShapes for Div {
     ) -> Result<Vec<SymTensor>, InferShapesError> {
         let div = |x: &SymExpr, y: &SymExpr| {
             Some(match (x, y) {
-                (SymExpr::Value(x), SymExpr::Value(y)) if *y != 0 => SymExpr::Value(x / y),
+                // Only exact quotients are folded. The values may come from
+                // float tensors, for which division does not truncate.
+                (SymExpr::Value(x), SymExpr::Value(y)) => {
+                    if x.checked_rem(*y)? != 0 {
+                        return None;
+                    }
+                    SymExpr::Value(x.checked_div(*y)?)
+                }
                 _ => x.clone() / y.clone(),
             })
         };
@@ -166,7 +174,7 @@ impl InferShapes for Mul {
     ) -> Result<Vec<SymTensor>, InferShapesError> {
         let mul = |x: &SymExpr, y: &SymExpr| {
             Some(match (x, y) {
-                (SymExpr::Value(x), SymExpr::Value(y)) => SymExpr::Value(x * y),
+                (SymExpr::Value(x), SymExpr::Value(y)) => SymExpr::Value(x.checked_mul(*y)?),
                 _ => x.clone() * y.clone(),
             })
         };
